@@ -555,8 +555,10 @@ voc_close	(SF_PRIVATE *psf)
 		**	as audio data, and do not append a second terminator to a
 		**	file that was opened SFM_RDWR and did not grow.
 		*/
-		if (psf->bytewidth > 0)
+		if (psf->file.mode == SFM_RDWR && psf->bytewidth > 0)
 			psf->dataend = psf->dataoffset + psf->sf.frames * psf->bytewidth * psf->sf.channels ;
+		else
+			psf->dataend = 0 ;	/* A new file ends where its audio data ends. */
 
 		if (psf->dataend > 0)
 			psf_fseek (psf, psf->dataend, SEEK_SET) ;
